@@ -121,9 +121,13 @@ func main() {
 	rnd := hx.NewRand(cfg.Seed)
 
 	var jobs []*job
+	var pjobs []*projJob
 	if cfg.Replay != "" {
-		jobs = replayJobs(cfg.Replay)
+		jobs, pjobs = replayJobs(cfg.Replay)
 	} else {
+		if only := os.Getenv("C12_ONLY"); only == "" || strings.Contains("multi-project-dependency-copies", only) {
+			pjobs = append(pjobs, newProjJob(0))
+		}
 		identifierCases(rep, sh, rnd, cfg.Thorough())
 		jobs = grammarJobs(cfg, rnd)
 		for k, v := range distribution {
@@ -141,8 +145,18 @@ func main() {
 	}
 
 	results := make([]*result, len(jobs))
+	presults := make([]*projResult, len(pjobs))
 	var wg sync.WaitGroup
 	sem := make(chan struct{}, runtime.NumCPU())
+	for i := range pjobs {
+		wg.Add(1)
+		go func(i int) {
+			defer wg.Done()
+			sem <- struct{}{}
+			defer func() { <-sem }()
+			presults[i] = runProjects(pjobs[i])
+		}(i)
+	}
 	for i := range jobs {
 		wg.Add(1)
 		go func(i int) {
@@ -177,6 +191,23 @@ func main() {
 		if len(r.graph) > 0 {
 			sh.Add(coqReg(r), map[string]interface{}{"kind": "registry", "family": j.Family, "name": j.Name, "manifest": j.Manifest,
 				"perm": j.Perm, "wellFormed": j.WellFormed, "observed": r.outcomes})
+		}
+	}
+	for _, r := range presults {
+		rep.Evaluations += r.procs
+		rep.Count("manifest-family:" + r.job.Family)
+		rep.CountN("generator-processes", r.procs)
+		rep.CountN("multi-project:manifest-orders-registered", r.orders)
+		for i, f := range r.fails {
+			rep.Fail(f.sig, f.what, f.site, r.failCase[i], map[string]interface{}{"build": tailStr(r.buildOut, 1500), "detail": r.detail})
+		}
+		if len(r.fails) == 0 {
+			rep.Count("manifest:ok")
+		}
+		rep.Distinct("projects:"+r.job.Name, len(r.fails) == 0)
+		rep.Sample(map[string]interface{}{"family": r.job.Family, "projects": len(r.job.Projects), "orders": r.orders})
+		for _, c := range r.cases {
+			sh.Add(c.coq, c.desc)
 		}
 	}
 	if cfg.Replay == "" {
@@ -250,10 +281,12 @@ func grammarJobs(cfg *hx.Config, rnd *hx.Rand) []*job {
 	add(mgen.SimpleActionsSubs)
 	add(mgen.Namespaces)
 	add(mgen.CustomTyperefs)
+	add(mgen.MethodNameSpaces)
 	add(mgen.WitnessOrder)
 	add(mgen.WitnessPackageCycle)
 	add(mgen.WitnessCrossGroup)
 	add(mgen.WitnessRenameFails)
+	add(mgen.WitnessAffixCollision)
 	if cfg.Thorough() {
 		add(func(root string) *mgen.Manifest {
 			return mgen.Collections(root, []string{"int32", "bool", "float32", "float64", "typerefString", "fixed"})
@@ -279,6 +312,9 @@ func grammarJobs(cfg *hx.Config, rnd *hx.Rand) []*job {
 	}
 	var jobs []*job
 	for k, mk := range mks {
+		if only := os.Getenv("C12_ONLY"); only != "" && !strings.Contains(mk("x").Family, only) { // development aid
+			continue
+		}
 		jobs = append(jobs, newJob(k, func(root string) *mgen.Manifest {
 			m := mk(root)
 			m.Stats(func(key string, n int) { distribution[key] += n })
@@ -288,7 +324,7 @@ func grammarJobs(cfg *hx.Config, rnd *hx.Rand) []*job {
 	return jobs
 }
 
-func replayJobs(path string) []*job {
+func replayJobs(path string) ([]*job, []*projJob) {
 	b, err := os.ReadFile(path)
 	must(err)
 	var rp struct {
@@ -306,9 +342,16 @@ func replayJobs(path string) []*job {
 		} `json:"case"`
 	}
 	must(json.Unmarshal(b, &rp))
+	if rp.Case.Kind == "projects" || rp.Case.Kind == "registry-multi" {
+		var raw struct {
+			Case json.RawMessage `json:"case"`
+		}
+		must(json.Unmarshal(b, &raw))
+		return nil, []*projJob{replayProjJob(raw.Case)}
+	}
 	if len(rp.Case.Manifest) == 0 {
 		fmt.Fprintln(os.Stderr, "replay file carries no manifest (proof / correspondence replays name a theorem instead)")
-		return nil
+		return nil, nil
 	}
 	var mm map[string]interface{}
 	must(json.Unmarshal(rp.Case.Manifest, &mm))
@@ -323,7 +366,7 @@ func replayJobs(path string) []*job {
 		dm["packageRoot"] = ws.RootFor(name + "d")
 		j.Downstream, _ = json.MarshalIndent(dm, "", " ")
 	}
-	return []*job{j}
+	return []*job{j}, nil
 }
 
 // ------------------------------------------------------------------------------------------------ one manifest
@@ -504,6 +547,12 @@ func runJob(j *job) *result {
 			fail("missing-type-declaration", fmt.Sprintf("%s.%s: %s", e.Namespace, e.Name, msg), "v2/codegen/utils/codefile.go:Write")
 			return r
 		}
+	}
+	// (5d) every method of every resource is declared in its package, whatever the files are called
+	// (C12_SKIP_DECL_CHECK: development aid, to see what the compiler says about such an output)
+	if kind, what := checkResourceDecls(j.Manifest, j.Root, outDirs[0]); kind != "" && os.Getenv("C12_SKIP_DECL_CHECK") == "" {
+		fail("missing-method-declaration:"+kind, what, "v2/codegen/resources/resource.go:GenerateCode (one file per method; utils.WriteJenFile replaces an existing file)")
+		return r
 	}
 	if len(j.Files) > 0 {
 		// (5b) the emitted manifest records isCustom for every typeref made custom by a hand-written file: dependent
